@@ -515,6 +515,14 @@ theorem C11_identity (env : Env) (tbl : Option (List Asg)) (hI : Installed env t
   spawnChild_none env sender loc dom hne _
     (nughdeGet_identity env tbl loc (C11_installed_lookup env tbl hI loc hl))
 
+/-- the form of `C11_identity` the driver evaluates on the implementation's recorded calls and outcome -/
+theorem C11_identity_oracle (env : Env) (tbl : Option (List Asg)) (hI : Installed env tbl) (sender loc dom : Bytes)
+    (hl : NUL ∉ loc) (hne : loc ≠ []) :
+    childAsDictated env (specIdentity tbl env.pw loc) sender loc dom
+      (spawnChild env .none sender loc dom).1 (spawnChild env .none sender loc dom).2 = true := by
+  rw [C11_identity env tbl hI sender loc dom hl hne]
+  simp [childAsDictated]
+
 /-- … and under EVERY single-call fault: with `id` the identity the tables dictate, every execv of qmail-local that
     still happens follows the drop to exactly `id.gid`/`id.uid ≠ 0` and carries exactly `specArgv … id …`; and when the
     tables dictate no runnable identity (failing lookup, malformed record, uid 0) nothing is executed at all. -/
